@@ -67,6 +67,7 @@ type Daemon struct {
 	Setups   int
 	Log      []string
 	Resolvable []Service // services the daemon can resolve
+	mu       simrt.Mutex // like go-avahi's server mutex: held while a signal is dispatched into a browser channel
 	h        uint64
 }
 
@@ -201,9 +202,57 @@ func (s *Server) ServiceBrowserNew(addChan, removeChan chan Service, iface, prot
 func (s *Server) ServiceBrowserFree(r ServiceBrowserInterface) {
 	simrt.BlockOn("avahi.ServiceBrowserFree", []*uint64{&s.d.h}, nil)
 	if b, ok := r.(*Browser); ok && b != nil {
+		// waits for a dispatch in flight, as the real library does (signal dispatch and free share a mutex)
+		s.d.mu.Lock()
 		b.Freed = true
+		s.d.mu.Unlock()
 		s.d.log("ServiceBrowserFree")
 	}
+}
+
+// Push delivers a browse result (add or remove) to every live browser, each on its own goroutine
+// (the daemon's signal handling); a freed browser never receives anything.
+func (d *Daemon) Push(add bool, svc Service) {
+	simrt.TouchCell(&d.h)
+	for _, b := range d.Browsers {
+		if b.Freed {
+			continue
+		}
+		b := b
+		simrt.Go("avahi.dispatch", func() {
+			d.mu.Lock()
+			defer d.mu.Unlock()
+			if b.Freed {
+				return
+			}
+			if add {
+				simrt.Send(b.Add, svc)
+			} else {
+				simrt.Send(b.Remove, svc)
+			}
+		})
+	}
+}
+
+// LiveBrowsers / LiveGroups count what the daemon currently serves.
+func (d *Daemon) LiveBrowsers() int {
+	n := 0
+	for _, b := range d.Browsers {
+		if !b.Freed {
+			n++
+		}
+	}
+	return n
+}
+
+func (d *Daemon) LiveGroups() []*EntryGroup {
+	var out []*EntryGroup
+	for _, g := range d.Groups {
+		if !g.Freed && g.Committed {
+			out = append(out, g)
+		}
+	}
+	return out
 }
 
 func (s *Server) ResolveService(iface, protocol int32, name, serviceType, domain string, aprotocol int32, flags uint32) (Service, error) {
